@@ -571,7 +571,11 @@ static void cc1(void) {
   // Tokenize and parse.
   Token *tok2 = must_tokenize_file(base_file);
   tok = append_tokens(tok, tok2);
-  tok = preprocess(tok);
+
+  // -E prints preprocessing tokens as they are spelled. Converting
+  // pp-numbers and concatenating adjacent string literals is done
+  // only for the compiler proper.
+  tok = opt_E ? preprocess_pp_tokens(tok) : preprocess(tok);
 
   // If -M or -MD are given, print file dependencies.
   if (opt_M || opt_MD) {
